@@ -354,7 +354,7 @@ class Check(PropCheck):
             rng.shuffle(sched)
             yield Case({'kind': 'threads', 'bound': b, 'exprs': pool, 'trees': trees, 'threads': ths, 'sched': sched}, 'threads')
         for i in range(8 if tier == 'thorough' else 3):
-            yield Case(self.hot_threads(rng, 8, 400 if tier == 'thorough' else 300), 'threads-hot'))
+            yield Case(self.hot_threads(rng, 8, 400 if tier == 'thorough' else 300), 'threads-hot')
 
     HOT = ['//p[last()]', '//p[position() = last()]', '//span[last() - 1]', '//*[last() > 2]', '//p[position() < last()]',
            '//div/p[last()]', '//span[contains(@title, "v-" || @rel)]', '//p[@n = last()]', '//span[position() = 2]',
